@@ -56,6 +56,8 @@ var c20Sources = []string{
 	// what it learns from one file must not leak into the next)
 	"package pkg\n\nimport f \"fmt\"\n\nfunc J() { f.Println(\"j\") }\n",
 	"package pkg\n\nimport \"strings\"\n\nvar K = strings.ToUpper(\"k\")\n",
+	// packages that are used in the constraints of a generic type declaration only
+	"package pkg\n\nimport (\n\t\"cmp\"\n\t\"fmt\"\n)\n\ntype Pair[K cmp.Ordered, V fmt.Stringer] struct {\n\tk K\n\tv V\n}\n",
 	// generated code: a //line directive above the package clause names another file (goyacc style)
 	"//line grammar.y:2\npackage pkg\n\nimport \"sort\"\n\n//line grammar.y:10\nfunc E(x []int) { sort.Ints(x) }\n",
 }
@@ -307,7 +309,7 @@ func checkC20(c *Ctx) {
 	validateTraces(c, "SaveTrace", saveTraceCfg, items, 3000, false, func(it traceItem, res *TLCResult) {
 		c.Fail(Finding{Sig: "save-" + res.Violated, Input: it.Key, What: fmt.Sprintf("predicate %s of SaveTrace.tla fails: %s (%s)", res.Violated, truncate(string(it.Trace), 400), it.Key), Replay: it.Replay})
 	})
-	c.Set("rule", "case = one package (1-3 files from nine sources, 1-2 directories, each file unedited, grown or shrunk by an edit) saved with a resolver failing while file i is printed (i = 0..n); non-trivial = a failure or an edit; distinct by package + edit mask + failure position")
+	c.Set("rule", "case = one package (1-3 files from ten sources, 1-2 directories, each file unedited, grown or shrunk by an edit) saved with a resolver failing while file i is printed (i = 0..n); non-trivial = a failure or an edit; distinct by package + edit mask + failure position")
 }
 
 func init() {
